@@ -24,7 +24,7 @@ from mc.explorer import Chooser, explore, ExploreStats
 PROP = "C14"
 
 REQUESTS = ["simple", "loop_cond", "symbolic", "layout", "fn_shared", "fn_unique", "two_params", "nnx_nested",
-            "transposes", "conv_nchw"]
+            "transposes", "conv_nchw", "nchw_residual", "three_params_implicit"]
 FAILING = ["raise_trace", "raise_lowering", "raise_in_fn_body", "raise_bad_args"]
 
 
@@ -60,6 +60,15 @@ def _request(name: str):
             u = s + ta
             return jnp.transpose(u, (0, 2, 3, 1)), jnp.transpose(s, (0, 2, 3, 1))
         return f, [(1, 4, 4, 3), (1, 4, 4, 3)], {}
+    if name == "nchw_residual":
+        def f(a, b):
+            ta, tb = jnp.transpose(a, (0, 3, 1, 2)), jnp.transpose(b, (0, 3, 1, 2))
+            s = jax.nn.relu(ta + tb)
+            return jnp.transpose(s + ta, (0, 2, 3, 1)) * 2.0
+        return f, [(1, 2, 2, 3), (1, 2, 2, 3)], {"inputs_as_nchw": [0], "outputs_as_nchw": [0]}
+    if name == "three_params_implicit":
+        return (lambda x, alpha=1.0, beta=2.0, gamma=3.0: T.implicit_block(x) + alpha + beta + gamma), [(2, 3)], \
+            {"input_params": {"alpha": np.float32(1.0), "beta": np.float32(2.0), "gamma": np.float32(3.0)}}
     if name == "conv_nchw":
         from flax import nnx
         conv = nnx.Conv(3, 4, kernel_size=(3, 3), rngs=nnx.Rngs(0))
@@ -294,7 +303,7 @@ def main(tier: str) -> int:
         # 3. set iteration orders
         bound = 1 if tier == "quick" else 2
         sjobs = [{"request": q, "bound": bound, "max_exec": 300 if tier == "quick" else 3000}
-                 for q in ("transposes", "layout", "conv_nchw", "nnx_nested", "fn_shared") if q in ref]
+                 for q in ("transposes", "layout", "conv_nchw", "nchw_residual", "nnx_nested", "fn_shared") if q in ref]
         for _i, p, r in pool.imap("checks.c14", "job_set_orders", sjobs):
             if is_worker_failure(r):
                 run.harness_error(f"set orders {p['request']}: {r.get('_worker')} {r.get('msg', '')[:150]}")
